@@ -1,9 +1,17 @@
 #!/bin/bash
-# usage: matrix.sh <dir with <id>/patch.diff> <out file>   runs every quick check against every patch on the scratch mirror
-dir=$1; outf=$2; : > $outf
+# usage: matrix.sh [own|all] <out file> <seed dir>...
+#   own: every installed change against the quick check of its own property
+#   all: every installed change against every quick check
+# Runs on the scratch mirror (tools/mirror.sh: /tmp/h2 + /tmp/repo2), /repo is not touched.
+mode=$1; outf=$2; shift 2; : > $outf
 ALL="C01 C02 C03 C04 C05 C06 C07 C08 C09 C10 C11 C12 C13 C14 C15 C16 C17 C18 C19 C20"
-for d in $dir/*/; do
-  id=$(basename $d)
-  [ -f $d/patch.diff ] || continue
-  /verif/tools/try_patch2.sh $d/patch.diff $ALL >> $outf 2>&1
+/verif/tools/mirror.sh > /dev/null || exit 3
+for dir in "$@"; do
+  for d in $dir/*/; do
+    id=$(basename $d)
+    [ -f $d/patch.diff ] || continue
+    if [ "$mode" = all ]; then checks=$ALL; else checks=$id; fi
+    /verif/tools/try_patch2.sh $d/patch.diff $checks 2>&1 | sed "s#^#$(basename $dir)/#" >> $outf
+  done
 done
+echo "detected: $(grep -c DETECTED $outf)  missed: $(grep -c MISSED $outf)  other: $(grep -vc 'DETECTED\|MISSED' $outf)" >> $outf
